@@ -34,6 +34,7 @@ def run(ctx):
     ctx.rule("C19.8", "the shared cache (which a reload does not replace) never receives configuration data: everything inserted into it is taken from an upstream reply (the forwarder's answers, the validated NameserverResponse), never from a merged / locally found record list")
     ctx.rule("C19.9", "the loader reads files through tokio::fs (awaits): no blocking std::fs call inside an async body of the server, so a slow file cannot stall the worker that answers queries")
     ctx.rule("C19.10", "what counts as an invalid file is rejected by the parsers (the rejection rules of C11.1 for zone files and the error transitions of C14.3 for hosts files, decided here as well): an invalid file fails the load, and a failed load keeps the old configuration")
+    ctx.rule("C19.11", "no file can make the parsers panic (C17.1, decided here as well): a panic inside the load would end the reload task, and every later SIGUSR1 would be ignored")
     ctx.decline("relative timing of SIGUSR1 and in-flight queries beyond the lock discipline")
 
     # ---------------------------------------------------------------- C19.1
@@ -154,6 +155,9 @@ def run(ctx):
     cache_sources_rule(ctx, "C19.8")
     from ..core import RuleAlias
     from . import C11, C14
+    C12.run(RuleAlias(ctx, {"C12.1": "C19.7", "C12.2": "C19.7"}))
+    from . import C17
+    C17.run(RuleAlias(ctx, {"C17.1": "C19.11"}))
     C11.run(RuleAlias(ctx, {"C11.1": "C19.10"}))
     C14.run(RuleAlias(ctx, {"C14.3": "C19.10"}))
     # C19.9
